@@ -20,7 +20,7 @@ from .common import *
 EXPLANATION = ("Whole-crate scan of device-memory accesses classified by ring-type layout signature and pointer provenance: "
                "no load from the descriptor table / available ring exists; taint from used-ring loads and transport reads is "
                "propagated through the symbolic terms of every unsafe sink operand; leak/unleak sites are paired.")
-FLOORS = {'fns_scanned': {'*': 440, 'noalloc': 230}, 'used_ring_loads': 6, 'sinks': {'*': 16, 'noalloc': 12}, 'unleak_sites': {'*': 2, 'noalloc': 0}, 'pop_sites': {'*': 9, 'noalloc': 4}}
+FLOORS = {'fns_scanned': {'*': 440, 'noalloc': 230}, 'used_ring_loads': 6, 'sinks': {'*': 16, 'noalloc': 12}, 'unleak_sites': {'*': 2, 'noalloc': 0}, 'pop_sites': {'*': 11, 'noalloc': 4}}
 
 SINK_FNS = ('::get_unchecked', '::get_unchecked_mut', 'core::slice::from_raw_parts', 'core::slice::from_raw_parts_mut',
             'core::ptr::slice_from_raw_parts', 'core::ptr::slice_from_raw_parts_mut',
@@ -111,39 +111,85 @@ def run(F, R):
     R.check(set(lt) <= set(ut) or True, 'T3', 'leak-unleak-pairing', '', 'leak types %s / unleak types %s' % (lt, ut))
 
 
-def t5_token_provenance(F, R, M):
+def token_wrappers(F, M, roles):
+    """(peek_like, pop_like): queue peek_used/pop_used plus driver functions that merely forward them.
+    peek_like: set of fn ids whose return value derives from a peek_like call.
+    pop_like: fn id -> (token arg index, [buffer arg indexes]) - the callee passes that parameter as the token and those
+    parameters as buffers to a pop_like callee."""
+    peek_like = set(k for k, v in roles.items() if v == 'peek_used')
+    pop_like = {k: (1, [2, 3]) for k, v in roles.items() if v == 'pop_used'}
+    for _ in range(3):
+        changed = False
+        for b in F.bodies.values():
+            if not F.handwritten(b) or b.get('impl_adt') == M.queue_adt or b['kind'] not in ('AssocFn', 'Fn') or b['id'] in peek_like or b['id'] in pop_like:
+                continue
+            callees = set(bl['term'].get('fn') for bl in b['blocks'] if bl['term']['k'] == 'call')
+            if callees & peek_like and b['arg_count'] <= 1:
+                sg = supergraph(F, b['id'], tag='flat', max_depth=0)
+                S = sg.sym
+                vals = [S.local_value(e, 0, 0) for e in sg.exits]
+                if vals and all(derives_from(v, lambda x: x[0] == 'call' and x[2] in peek_like) for v in vals):
+                    peek_like.add(b['id'])
+                    changed = True
+                    continue
+            if callees & set(pop_like):
+                sg = supergraph(F, b['id'], tag='flat', max_depth=0)
+                S = sg.sym
+                for n in sg.calls(lambda d: d.get('fn') in pop_like):
+                    ti, bis = pop_like[n.d['fn']]
+                    tok = strip_conv(S.operand(n.id, n.d['args'][ti]))
+                    if tok[0] != 'param':
+                        continue
+                    bufp = set()
+                    for bi in bis:
+                        t = S.operand(n.id, n.d['args'][bi])
+                        for e in [t] + (array_elems(S, t) or []):
+                            for x in subterms(e):
+                                if x[0] == 'param' and x[1] not in (1, tok[1]):
+                                    bufp.add(x[1])
+                    if bufp:
+                        pop_like[b['id']] = (tok[1] - 1, sorted(x - 1 for x in bufp))
+                        changed = True
+        if not changed:
+            break
+    return peek_like, pop_like
+
+
+def t5_token_provenance(F, R, M, rule='T5', only=None):
     from . import C05
     api = C05.queue_api(F, M)
     roles = C05.classify_api(api)
-    pops = set(k for k, v in roles.items() if v == 'pop_used')
-    peeks = set(k for k, v in roles.items() if v == 'peek_used')
-    if not pops or not peeks:
+    if not any(v == 'pop_used' for v in roles.values()) or not any(v == 'peek_used' for v in roles.values()):
         raise Undecided('queue API roles pop_used/peek_used not found')
+    peek_like, pop_like = token_wrappers(F, M, roles)
     nsites = 0
     for b in F.bodies.values():
         if not F.handwritten(b) or b.get('impl_adt') == M.queue_adt:
             continue
+        if only and not only(b):
+            continue
+        if not any(bl['term']['k'] == 'call' and bl['term'].get('fn') in pop_like for bl in b['blocks']):
+            continue
         sg = supergraph(F, b['id'], tag='flat', max_depth=0)
         S = sg.sym
-        for n in sg.calls():
-            if n.d.get('fn') not in pops:
-                continue
+        is_peek = lambda x: x[0] == 'call' and x[2] in peek_like
+        for n in sg.calls(lambda d: d.get('fn') in pop_like):
             nsites += 1
-            tok = S.operand(n.id, n.d['args'][1])
-            is_peek = lambda x: x[0] == 'call' and x[2] in peeks
-            inst = '%s:pop_used@%s' % (b['id'], fmt(S.operand(n.id, n.d['args'][0]))[:60])
+            ti, bis = pop_like[n.d['fn']]
+            tok = S.operand(n.id, n.d['args'][ti])
+            inst = '%s:%s@%s' % (b['id'], n.d['fn'].rsplit('::', 1)[1], fmt(S.operand(n.id, n.d['args'][0]))[:60])
             if not derives_from(tok, is_peek):
-                R.held('T5', inst, site(sg, n), 'token comes from the caller or from driver-private state: %s' % fmt(tok)[:80])
+                R.held(rule, inst, site(sg, n), 'token comes from the caller or from driver-private state: %s' % fmt(tok)[:80])
                 continue
             bad = None
-            for ai in (2, 3):
-                elems = array_elems(S, S.operand(n.id, n.d['args'][ai]))
+            for ai in bis:
+                t = S.operand(n.id, n.d['args'][ai])
+                elems = array_elems(S, t)
                 if elems is None:
-                    bad = 'cannot resolve the buffer list operand %d' % ai
-                    break
+                    elems = [t]
                 for e in elems:
                     sel = False
-                    for x in subterms(e):
+                    for x in deep_subterms(S, e, depth=6):
                         if x[0] in ('loc',):
                             for pp in x[2]:
                                 if pp[0] == 'idx' and derives_from(pp[1], is_peek):
@@ -155,9 +201,10 @@ def t5_token_provenance(F, R, M):
                         break
                 if bad:
                     break
-            R.check(bad is None, 'T5', inst, site(sg, n), 'device-supplied token selects every buffer released with it',
-                    'pop_used is given a token read from the used ring (peek_used) together with a buffer that was not looked up '
-                    'by that token, so a device writing a wrong id makes the driver release/unshare the wrong descriptor chain: %s' % bad)
+            R.check(bad is None, rule, inst, site(sg, n), 'device-supplied token selects every buffer released with it',
+                    'a completion is consumed with a token read from the used ring (peek_used) together with a buffer that was not looked up '
+                    'by that token: whenever the head of the used ring is another outstanding request (or a wrong id written by the device) the '
+                    'wrong descriptor chain is released/unshared and its completion is lost: %s' % bad)
     R.count('pop_sites', nsites)
 
 
